@@ -57,6 +57,8 @@ def check(prop, tier, seed, replay_path=None, selftest=False, keep=False):
         scripts = None
         if prop == "C11":
             mcs.append(V.tlc_mc(scratch, "MCDispatch", "MCDispatch.cfg"))
+            # liveness under weak fairness of each goroutine's steps: every classification returns, a cached answer stays
+            mcs.append(V.tlc_mc(scratch, "MCDispatch", "MCDispatch_live.cfg"))
             expected.append(tlc_expect_violation(scratch, "MCDispatch", "MCDispatch_storefirst.cfg", "ResultIsDeduce"))
             tlaps = V.tlaps_prove(scratch, "DispatchProof", ["Dispatch.tla"],
                                    "Spec => [](ResultIsDeduce /\\ cache entries equal Class) for every G in Nat and every non-empty set of types")
